@@ -67,7 +67,7 @@ def assignments(chk):
     if chk.tier == "quick":
         rng.shuffle(out)
         out = out[:90]
-    extra = 25 if chk.tier == "quick" else 400
+    extra = 25 if chk.tier == "quick" else 3000
     for _ in range(extra):
         out.append(tuple(rng.choice(KINDS) for _ in range(rng.randint(4, 5))))
     return out
